@@ -431,6 +431,42 @@ func (p *c11) Run(rec *core.Recorder, seed uint64, idx int, tier string) {
 		return
 	}
 	idx -= 6 * 4 * 3
+	if idx%40 == 39 {
+		// includes nested dozens deep: the innermost template still reads what the outermost ones defined
+		r := core.NewRand("C11deep", seed, idx)
+		depth := []int{31, 32, 33, 36, 40, 64}[r.Intn(6)]
+		srcs := map[string]string{}
+		var want strings.Builder
+		if r.Bool() {
+			srcs["node"] = "{{ n }}:{{ title }}{{ top is defined ? '+' : '-' }};{% if n > 0 %}{% include 'node' with {'n': n - 1} %}{% endif %}"
+			srcs["main"] = "{% set top = null %}{% include 'node' with {'n': " + fmt.Sprint(depth) + "} %}"
+			for n := depth; n >= 0; n-- {
+				fmt.Fprintf(&want, "%d:T+;", n)
+			}
+		} else {
+			for i := 0; i < depth; i++ {
+				srcs[fmt.Sprintf("t%d", i)] = fmt.Sprintf("{%% set v%d = 'V%d' %%}<{%% include 't%d' %%}>", i, i, i+1)
+			}
+			srcs[fmt.Sprintf("t%d", depth)] = fmt.Sprintf("{{ v0 }}|{{ v1 }}|{{ v%d }}|{{ v%d }}|{{ title }}", depth/2, depth-1)
+			srcs["main"] = "{% include 't0' %}"
+			want.WriteString(strings.Repeat("<", depth))
+			fmt.Fprintf(&want, "V0|V1|V%d|V%d|T", depth/2, depth-1)
+			want.WriteString(strings.Repeat(">", depth))
+		}
+		rec.Eval("deep-include-chains", canonSrcs(srcs), true)
+		rec.Count("deep-include-chains", 1)
+		res := renderFresh(srcs, "main", map[string]interface{}{"title": "T"}, nil)
+		cs := map[string]any{"templates": srcs, "depth": depth}
+		if res.Panicked {
+			rec.Violate("panic", "panic@"+res.Site, "engine panicked: "+res.PanicVal, cs, res.Stack)
+			return
+		}
+		if res.Err != nil || res.Out != want.String() {
+			rec.Violate("reference-model", fmt.Sprintf("c11-deep:%d", depth),
+				fmt.Sprintf("includes nested %d deep: engine gave %s (err=%v), include semantics require %s", depth, core.Q(core.Trunc(res.Out, 300)), res.Err, core.Q(core.Trunc(want.String(), 300))), cs, "")
+		}
+		return
+	}
 	// thorough: random compositions (two includes, deeper nesting)
 	r := core.NewRand("C11", seed, idx)
 	c := c11Case{with: r.Bool(), only: r.Bool(), ignore: r.Bool(), sandboxed: r.P(1, 4), nameForm: r.Intn(3), placement: r.Intn(4), target: r.Intn(3), overlap: r.Intn(3)}
